@@ -118,8 +118,10 @@ class _SimpleWrapped(object):
 
     __signature__ = specifiers.as_forged
 
-    def __call__(self, *args, **kwargs):
-        return self.func(*args, **kwargs)
+    def __call__(_sigtools_self, *args, **kwargs):
+        # not called 'self': the wrapped callable may have a parameter of that
+        # name, which would clash with this one in calls and signatures
+        return _sigtools_self.func(*args, **kwargs)
 
     def __get__(self, instance, owner):
         return type(self)(
@@ -219,8 +221,10 @@ class _Wrapped(object):
             self.func, self.__wrapped__,
             *self.decorator.f_args, **self.decorator.f_kwargs)
 
-    def __call__(self, *args, **kwargs):
-        return self.func(*args, **kwargs)
+    def __call__(_sigtools_self, *args, **kwargs):
+        # not called 'self': the wrapped callable may have a parameter of that
+        # name, which would clash with this one in calls and signatures
+        return _sigtools_self.func(*args, **kwargs)
 
     def __get__(self, instance, owner):
         return type(self)(
